@@ -352,12 +352,26 @@ CLAIMED["C32"] = dict(
          "Model.eigenval at random k, and the bundled Haldane models of both builders.",
     note=TB + "; the documented conventions of PythTB 2.0 / TBmodels 1.4 are assumed contracts (validated on random models by the stand-in); installed System_R / Rvectors / NeededData used as they are for the concrete bookkeeping")
 
+CLAIMED["C31"] = dict(
+    text="'To finite-difference accuracy' is made precise as a contract: with the weights and shells of find_shells (B1 condition, shells "
+         "closed under b -> -b) the scheme D f(k) = sum_b w_b f(k+b) b_cart (E) reproduces the Cartesian gradient of EVERY polynomial of degree "
+         "<= 2 exactly -- so for a quadratic k.p Hamiltonian all numerical derivatives are the analytic ones and for a smooth one the error is "
+         "the cubic remainder O(dk^2); (H) maps ANY Hermitian-valued function to a Hermitian-valued one. Decided per shape on the real text: "
+         "find_shells on cubic / hexagonal / triclinic / monoclinic boxes at dk = 1e-2 and 1e-4 (B1 within the code's tolerance, -b closure, equal "
+         "weights); Derivative3D with those stencils on a polynomial with SYMBOLIC coefficients (gradient and nested Hessian, coefficient-wise) "
+         "and on a function returning fresh symbolic Hermitian matrices per evaluation point; SystemKP.__init__ (stencil from recip_lattice x "
+         "dk, numerical derivatives nested on Ham exactly where analytic ones are missing, k folded into [-1/2,1/2) and handed over in Cartesian "
+         "or reduced coordinates, 12 option combinations); Data_K_k.HH_K / Xbar('Ham', 1..3) = the system's own functions at every k-point "
+         "rotated with that k-point's eigenvectors. Truncation error of general smooth models and 'same calculator results to that accuracy' "
+         "are numerical: bounded stand-in on random two-band models with linear, quadratic and sine terms. A defect was found and fixed here "
+         "(absolute thresholds in find_shells: no numerical derivatives on non-orthogonal boxes at the default step).",
+    note=TB + "; weights come out of an SVD on concrete floats: polynomial coefficients compared with a tolerance tied to the code's B1 tolerance; np.linalg.eigh external")
+
 NOT_APPLICABLE = {
     "C20": "real-space symmetrisation is a data-dependent floating-point orbit search over irrep objects; its postcondition is only statable through an eigen-solver, no discrete/algebraic kernel is left once externals are abstracted (DESIGN section 7)",
     "C21": "rotation matrices are produced inside sympy (polynomial expansion + evalf); orthogonality/composition live in that CAS computation, outside any contract this engine can generate VCs for (DESIGN section 7)",
     "C24": "orthonormality/frozen-span statements reduce entirely to assumed contracts of eigh/SVD inside an iteration; the only code-side kernel (window bookkeeping) is covered under C15 (DESIGN section 7)",
     "C28": "agreement only up to discretisation error on converged grids: a numerical-analysis statement, not a postcondition of a call (DESIGN section 7)",
-    "C31": "'to finite-difference accuracy' is a truncation-error statement; no contract in reach expresses it (DESIGN section 7)",
 }
 
 NOT_BUILT = {}
